@@ -768,3 +768,69 @@ def m_iso8601(I, st, info, args, depth):
     st.facts[("iso8601", nm)] = False
     st.cond.append("iso8601::datetime(%s) is Err" % nm)
     return [(s2, "return", ok(Sym("DateTime(%s)" % nm))), (st, "return", err(Sym("iso8601 error")))]
+
+
+# ------------------------------------------------------------------ serde_json plumbing of GenericBuilder::set_claim (C14.R3)
+@model(r"^serde_json::ser::Serializer::<W>::new$")
+def m_ser_new(I, st, info, args, depth):
+    return ret(st, Struct("serde_json::Serializer", None, {"writer": args[0]}))
+
+
+@model(r"^erased_serde::ser::serialize$")
+def m_erased_serialize(I, st, info, args, depth):
+    # writes the JSON text of args[0] into the serializer's writer: remember what was serialised
+    ser = deref(I, st, args[1])
+    src = deref(I, st, args[0])
+    st.events.append(("serialize", getattr(src, "name", repr(src))))
+    if isinstance(ser, Struct) and isinstance(ser.fields.get("writer"), Ptr):
+        I.store_to(st, ser.fields["writer"], Seq("json_text(%s)" % getattr(src, "name", "?"), Aff.sym("len(json_text)"), kind="vec", attrs={"json_of": getattr(src, "name", "?")}))
+    return ret(st, ok(UNIT))
+
+
+@model(r"^serde_json::de::from_slice$|^serde_json::de::from_str$")
+def m_from_slice(I, st, info, args, depth):
+    src = deref(I, st, args[0])
+    of = src.attrs.get("json_of") if isinstance(src, Seq) else None
+    nm = "json(%s)" % of if of else "json(%s)" % getattr(src, "name", "?")
+    s2 = st.clone()
+    s2.cond.append("%s parses" % nm)
+    st.cond.append("%s does not parse" % nm)
+    v = Sym(nm, "serde_json::value::Value", attrs={"adt": "serde_json::value::Value", "json_of": of})
+    return [(s2, "return", ok(v)), (st, "return", err(Sym("serde_json::Error")))]
+
+
+@model(r"^serde_json::map::Map::<alloc::string::String, serde_json::value::Value>::(len|contains_key|remove|get|insert)$")
+def m_json_map(I, st, info, args, depth):
+    op = info["tdef"].split("::")[-1]
+    p = I.resolve(st, args[0])
+    m = deref(I, st, p)
+    nm = getattr(m, "name", repr(m))
+    if op == "len":
+        return ret(st, Aff.sym("len(%s)" % nm))
+    k = str_key(I, st, args[1]) if len(args) > 1 else None
+    fact = ("mapcontains", nm, k)
+    if op == "contains_key":
+        known = st.facts.get(fact)
+        if known is not None:
+            return ret(st, BoolV(known))
+        s2 = st.clone()
+        s2.facts[fact] = True
+        s2.cond.append("%s has %s" % (nm, k[1]))
+        st.facts[fact] = False
+        st.cond.append("%s lacks %s" % (nm, k[1]))
+        return [(s2, "return", BoolV(True)), (st, "return", BoolV(False))]
+    if op in ("remove", "get"):
+        if op == "remove":
+            st.events.append(("Map::remove", nm, k))
+        known = st.facts.get(fact)
+        item = Sym("%s[%s]" % (nm, k[1]), attrs={"member_of": nm, "member_key": k})
+        if known is True:
+            return ret(st, some(item))
+        if known is False:
+            return ret(st, none())
+        s2 = st.clone()
+        s2.facts[fact] = True
+        st.facts[fact] = False
+        return [(s2, "return", some(item)), (st, "return", none())]
+    st.events.append(("Map::" + op, nm, k))
+    return ret(st, Top("Map::" + op))
